@@ -186,6 +186,7 @@ def _case(spec, ctx):
             ctx.fail("transform:shape", f"{t1.shape} expected {(len(X), nsens)}", spec)
         if not np.array_equal(t1, t2):
             ctx.fail("transform:not-repeatable", "", spec)
+        t1_snapshot = t1.copy()
         if np.any(t1 < 0) or not np.all(np.isfinite(t1)):
             ctx.fail("transform:negative-or-nonfinite", f"{t1}", spec)
         with ctx.formak("export_python", spec):
@@ -267,6 +268,8 @@ def _case(spec, ctx):
             if not np.array_equal(t3, t1):
                 ctx.event("second_threshold_changed_the_NIS")
             ctx.event("set_params_then_transform_checked")
+        if not np.array_equal(t1, t1_snapshot):
+            ctx.fail("transform:earlier-result-changed", "the array returned by the first transform call changed during later calls", spec)
     distinct_rows = all(len(set(r)) == len(r) for r in spec["X"])
     ctx.event(f"sensors={nsens}")
     ctx.event(f"controls={len(m['control'])}")
